@@ -648,8 +648,8 @@ def oracle(case, obs):
                 if not snap[1][j] or any(a for i, a in enumerate(snap[1]) if i != j):
                     fail('single-controller', f'after op {k}: {names[j]} took over but control flags are {snap[1]}', k)
     for k, s in enumerate(steps):
-        if any(len(e) > 2 for e in s['events']) or s.get('errs'):
-            fail('error-state', f'op {k} ({ops[k]}) left a parameter in error state', k)
+        if any(len(e) > 2 for e in s['events']):
+            fail('error-state', f'op {k} ({ops[k]}) produced an error update although the fake driver never fails', k)
     return fails
 
 
@@ -938,3 +938,23 @@ def shrink(case):
     ops = case['ops']
     for i in range(len(ops) - 1, -1, -1):
         yield dict(case, ops=ops[:i] + ops[i + 1:])
+
+
+def search_cases(seed, mismatching):
+    """targeted search after a broken obligation: every prefix and every single-op deletion of the disagreeing cases,
+    the same layouts with fresh histories, and a fresh random budget"""
+    rng = random.Random(seed * 7919 + 18)
+    out = []
+    for c in mismatching[:50]:
+        ops = c['ops']
+        for i in range(1, len(ops) + 1):
+            out.append(dict(c, ops=ops[:i]))
+        for i in range(len(ops)):
+            out.append(dict(c, ops=ops[:i] + ops[i + 1:]))
+        go = GEN[c['kind']][1]
+        for _ in range(40):
+            out.append(dict(c, ops=[go(rng, c['layout']) for _ in range(rng.randint(1, 8))]))
+    for kind in ('st', 'fe', 'li', 'co'):
+        out.extend(rand_case(rng, kind) for _ in range(4000))
+    out.extend(exhaustive_cases(3))
+    return out
